@@ -473,6 +473,21 @@ class Exec:
             for e in facts:
                 self.assume(S.spec_eval(e, env, extra))
                 self.assumed.add('lemma instance: ' + e)
+        # intermediate assertions at a program point: proved there (an obligation of their own), then available
+        for meth, items in getattr(c, 'asserts_on', ()):
+            if meth != method or self.dry:
+                continue
+            env = S.Env(self, self.store, dict(self.names), self.this_path, {})
+            extra = dict(self.spec_lets)
+            for ai, av in enumerate(args):
+                extra['arg%d' % ai] = env.wrap(av)
+            for lab, e in items:
+                S.MODE[0] = 'prove'
+                try:
+                    goal = S.spec_eval(e, env, extra)
+                finally:
+                    S.MODE[0] = 'assume'
+                self.oblige('assert', lab, goal, None, props=c.props_for(lab))
         if not c.ghost_on:
             return
         for meth, var, updates in c.ghost_on:
@@ -1307,6 +1322,39 @@ class Exec:
                 self.ret_is_ref.pop()
         finally:
             self.store, self.dry, self.version = saved
+        return rv
+
+    def call_lambda(self, lam, args):
+        """lam(args...) executed for real (obligations on): a closure stored in a std::function and invoked by the code"""
+        meths = []
+
+        def find(n):
+            if n.get('kind') == 'CXXMethodDecl' and n.get('name') == 'operator()' and any(
+                    c.get('kind') == 'CompoundStmt' for c in n.get('inner', ())):
+                meths.append(n)
+            for c in n.get('inner', ()):
+                if c.get('kind') in ('CXXRecordDecl', 'FunctionTemplateDecl', 'CXXMethodDecl'):
+                    find(c)
+        find(lam.node)
+        meths = [m for m in meths if 'auto' not in m['type']['qualType'] and 'type-parameter' not in m['type']['qualType']]
+        if not meths:
+            raise Unsupported('lambda without a concrete operator()')
+        m = meths[-1]
+        ps = [c for c in m['inner'] if c.get('kind') == 'ParmVarDecl']
+        body = [c for c in m['inner'] if c.get('kind') == 'CompoundStmt'][0]
+        saved_names = dict(self.names)
+        for p_, a in zip(ps, args):
+            self.store[p_['id']] = a
+            self.names[p_.get('name', '?')] = Path(p_['id'])
+        self.ret_is_ref.append(False)
+        try:
+            self.ex(body)
+            rv = None
+        except ReturnSignal as r:
+            rv = r.val
+        finally:
+            self.ret_is_ref.pop()
+            self.names = saved_names
         return rv
 
     # ------------------------------------------------------------------ calls (delegated)
